@@ -241,10 +241,44 @@ func c28Measure(s C28Scenario, n int) (c28Point, *pbt.Outcome) {
 	return p, nil
 }
 
+var c28WarmOnce sync.Once
+
+// c28Warm populates the runtime's own caches (g structs of exited goroutines,
+// sudogs, timers — they live on the heap and are kept for reuse) with a
+// goroutine population larger than any measurement creates. Without it the
+// first large run with thousands of concurrent watchdogs adds several hundred
+// KB of runtime bookkeeping to the "retained" figure; that saturates with the
+// peak number of goroutines, not with the number of keys, and must not be
+// mistaken for per-key lock state.
+func c28Warm() {
+	c28WarmOnce.Do(func() {
+		for round := 0; round < 2; round++ {
+			var wg sync.WaitGroup
+			done := make(chan struct{})
+			for i := 0; i < 8000; i++ {
+				wg.Add(1)
+				go func() {
+					defer wg.Done()
+					t := time.NewTimer(4 * time.Millisecond)
+					defer t.Stop()
+					select {
+					case <-t.C:
+					case <-done:
+					}
+				}()
+			}
+			wg.Wait()
+			close(done)
+		}
+		heapNow()
+	})
+}
+
 func runC28(s C28Scenario) pbt.Outcome {
 	if len(s.Sizes) < 2 || s.Held < 0 || s.Held > 8 || s.KeyLen < 0 || s.KeyLen > 256 {
 		return pbt.Outcome{Skip: true}
 	}
+	c28Warm()
 	var pts []c28Point
 	maxN := 0
 	for _, n := range s.Sizes {
@@ -318,16 +352,12 @@ func genC28(t *rapid.T) C28Scenario {
 	// the largest size dominates the slope and keeps measurement noise
 	// (tens of KB of unrelated heap) far below the 16 bytes/key bound
 	s.Sizes = []int{100, 1000, 10000, 100000}
-	if s.TTLEvery == 1 {
-		// all by TTL: keep the goroutine population reasonable
-		s.Sizes = []int{100, 1000, 10000, 30000}
-	}
 	return s
 }
 
 const c28Witness = "per-key-queue-never-pruned"
 
-const c28Rule = "fresh lock.New(); n distinct keys (n = 10^2, 10^3, 10^4, 10^5; 3*10^4 when every key expires by TTL) each locked and then unlocked or left to a 3 ms TTL (every k-th key, k in {never,10,3,1}), " +
+const c28Rule = "fresh lock.New(); n distinct keys (n = 10^2, 10^3, 10^4, 10^5) each locked and then unlocked or left to a 3 ms TTL (every k-th key, k in {never,10,3,1}), " +
 	"0..3 queued waiters on every 64th key, a drawn mix of stray Unlock calls (duplicate, late after expiry, never-locked key, wrong id), 0..8 other keys held throughout; after all watchdogs exited: runtime.GC x2 and HeapAlloc delta with the lock still alive; " +
 	"exact clause: lock.queues then holds exactly one queue per held key; least-squares slope of retained bytes over n must be < 16 bytes/key; non-trivial = n >= 10^4 with every key released before the measurement"
 
